@@ -3,7 +3,7 @@
 //	go run ./c14/gen            (writes /verif/c14/zz_*.go)
 //
 // For every (family, arity) member of the arity-indexed families of csgura/fp it emits one
-// generic call-site function `s_<member>[A1..An val](c *cx)` holding the library call and,
+// generic call-site function `s_<member>[A1..An val](c *Cx)` holding the library call and,
 // next to it, the expected result written out position by position (never computed through
 // an arity-indexed library function), and one registration line that instantiates the site
 // with pairwise distinct types (T1..Tn) and with one common type (S..S).
@@ -38,9 +38,9 @@ type monad struct {
 }
 
 var (
-	mOption = &monad{"option", "fp.Option", "fp.Some", "optS", "Some("}
-	mTry    = &monad{"try", "fp.Try", "fp.Success", "tryS", "Success("}
-	mFuture = &monad{"future", "fp.Future", "future.Successful", "c.futS", "Success("}
+	mOption = &monad{"option", "fp.Option", "fp.Some", "OptS", "Some("}
+	mTry    = &monad{"try", "fp.Try", "fp.Success", "TryS", "Success("}
+	mFuture = &monad{"future", "fp.Future", "future.Successful", "c.FutS", "Success("}
 )
 
 type step struct {
@@ -133,7 +133,7 @@ func tps(n int) string {
 	if n == 0 {
 		return ""
 	}
-	return "[" + TA(1, n) + " val]"
+	return "[" + TA(1, n) + " Val]"
 }
 func inst(n int) string {
 	if n == 0 {
@@ -152,7 +152,10 @@ func instT(n int) string {
 	if n == 0 {
 		return ""
 	}
-	return "[" + mapJoin(seq(1, n), ", ", pfx("T")) + "]"
+	// right-aligned (T<23-n>..T22): the families that recurse on the tail (TupleN -> Tuple(N-1) of
+	// positions 2..N) then reuse the instantiation of the arity below instead of creating O(N^2)
+	// distinct concrete types, which is what dominated the compile time of the harness
+	return "[" + mapJoin(seq(23-n, 22), ", ", pfx("T")) + "]"
 }
 func instS(n int) string {
 	if n == 0 {
@@ -207,7 +210,7 @@ func pures(m *monad, a, b int) string {
 func insts(ctor string, brace bool, n int) string {
 	return mapJoin(seq(1, n), ", ", func(k int) string {
 		if brace {
-			return fmt.Sprintf("%s[A%d]{c, %d}", ctor, k, k)
+			return fmt.Sprintf("%s[A%d]{C: c, K: %d}", ctor, k, k)
 		}
 		return fmt.Sprintf("%s[A%d](c, %d)", ctor, k, k)
 	})
@@ -265,7 +268,7 @@ func chain(s *site) string {
 			if k == 1 {
 				fmt.Fprintf(&b, "%s(func(_ hlist.Nil) %s { return %s })", st.Method, ret, val)
 			} else {
-				fmt.Fprintf(&b, "%s(func(h A%d) %s { c.prev(%d, string(h), string(a%d)); return %s })", st.Method, k-1, ret, k, k-1, val)
+				fmt.Fprintf(&b, "%s(func(h A%d) %s { c.Prev(%d, string(h), string(a%d)); return %s })", st.Method, k-1, ret, k, k-1, val)
 			}
 		case "HListMap", "HListFlatMap":
 			ret, val := A, a
@@ -275,7 +278,7 @@ func chain(s *site) string {
 			if k == 1 {
 				fmt.Fprintf(&b, "%s(func(_ hlist.Nil) %s { return %s })", st.Method, ret, val)
 			} else {
-				fmt.Fprintf(&b, "%s(func(h %s) %s { c.vec(\"callback-hlist\", hl%d[%s](h), %s); return %s })",
+				fmt.Fprintf(&b, "%s(func(h %s) %s { c.Vec(\"callback-hlist\", Hl%d[%s](h), %s); return %s })",
 					st.Method, consR(k-1, 1), ret, k-1, TAr(k-1, 1), strsr(k-1, 1), val)
 			}
 		default:
@@ -302,360 +305,361 @@ var funcs = template.FuncMap{
 const bodies = `
 {{define "site"}}
 // {{.Member}}{{if .Sub}} ({{.Sub}}){{end}}
-func {{.Fn}}{{tps .TP}}(c *cx) {
-	c.enter({{printf "%q" .Family}}, {{printf "%q" .Member}}, {{.Pos}})
+func {{.Fn}}{{tps .TP}}(c *Cx) {
+	c.Enter({{printf "%q" .Family}}, {{printf "%q" .Member}}, {{.Pos}})
 {{- range $k := seq 1 .NV}}
-	a{{$k}} := A{{$k}}(c.v[{{$k}}])
+	a{{$k}} := A{{$k}}(c.V[{{$k}}])
 {{- end}}
 {{- range $k := seq 1 .NU}}
-	b{{$k}} := A{{$k}}(c.u[{{$k}}])
+	b{{$k}} := A{{$k}}(c.U[{{$k}}])
 {{- end}}
 {{- end}}
 
 {{define "recf"}}
-	f := rec{{.N}}{{inst .N}}(c)
-	want := c.want({{strs 1 .N}})
+	f := Rec{{.N}}{{inst .N}}(c)
+	want := c.Want({{strs 1 .N}})
 {{- end}}
 
 {{define "recfm"}}
-	fm := func({{decl 1 .N}}) {{.M.Ty}}[Res] { return {{.M.Pure}}(c.call({{xstrs 1 .N}})) }
-	want := c.want({{strs 1 .N}})
+	fm := func({{decl 1 .N}}) {{.M.Ty}}[Res] { return {{.M.Pure}}(c.Call({{xstrs 1 .N}})) }
+	want := c.Want({{strs 1 .N}})
 {{- end}}
 
 {{define "recft"}}
-	ft := func({{decl 1 .N}}) (Res, error) { return c.call({{xstrs 1 .N}}), nil }
-	want := c.want({{strs 1 .N}})
+	ft := func({{decl 1 .N}}) (Res, error) { return c.Call({{xstrs 1 .N}}), nil }
+	want := c.Want({{strs 1 .N}})
 {{- end}}
 
 {{define "tuple_acc"}}{{template "site" .}}
 	t := {{.Mk}}{{.N}}({{args 1 .N}})
-	eqv(c, "Head", t.Head(), a1)
+	Eqv(c, "Head", t.Head(), a1)
 {{- if eq .N 1}}
 	var _ fp.Unit = t.Tail()
 {{- else}}
-	eqv(c, "Last", t.Last(), a{{.N}})
+	Eqv(c, "Last", t.Last(), a{{.N}})
 	{{pargs "i" 1 (dec .N)}} := t.Init()
 {{- range $k := seq 1 (dec .N)}}
-	eqv(c, "Init", i{{$k}}, a{{$k}})
+	Eqv(c, "Init", i{{$k}}, a{{$k}})
 {{- end}}
 	{{pargs "l" 2 .N}} := t.Tail()
 {{- range $k := seq 2 .N}}
-	eqv(c, "Tail", l{{$k}}, a{{$k}})
+	Eqv(c, "Tail", l{{$k}}, a{{$k}})
 {{- end}}
 	{{pargs "u" 1 .N}} := t.Unapply()
 {{- range $k := seq 1 .N}}
-	eqv(c, "Unapply", u{{$k}}, a{{$k}})
+	Eqv(c, "Unapply", u{{$k}}, a{{$k}})
 {{- end}}
-	c.eqs("String", t.String(), "(" + {{joinPlus 1 .N}} + ")")
+	c.Eqs("String", t.String(), "(" + {{joinPlus 1 .N}} + ")")
 {{- end}}
 }
 {{end}}
 
 {{define "ctor"}}{{template "site" .}}
 	got := {{.Call}}({{args 1 .N}})
-	c.vec("fields", {{.Obs}}{{.N}}{{inst .N}}(got), {{strs 1 .N}})
+	c.Vec("fields", {{.Obs}}{{.N}}{{inst .N}}(got), {{strs 1 .N}})
 }
 {{end}}
 
 {{define "to_hlist"}}{{template "site" .}}
 	got := {{.Call}}({{.Mk}}{{.N}}({{args 1 .N}}))
-	c.vec("elements", hl{{.N}}{{inst .N}}(got), {{strs 1 .N}})
+	c.Vec("elements", Hl{{.N}}{{inst .N}}(got), {{strs 1 .N}})
 }
 {{end}}
 
 {{define "as_curried"}}{{template "site" .}}{{template "recf" .}}
 	var got Res = as.Curried{{.N}}(f){{ccall 1 .N}}
-	c.res(string(got), want)
+	c.Result(string(got), want)
 }
 {{end}}
 
 {{define "as_untupled"}}{{template "site" .}}
-	f := func(t fp.Tuple{{.N}}{{inst .N}}) Res { return c.call(tup{{.N}}{{inst .N}}(t)...) }
-	want := c.want({{strs 1 .N}})
+	f := func(t fp.Tuple{{.N}}{{inst .N}}) Res { return c.Call(Tup{{.N}}{{inst .N}}(t)...) }
+	want := c.Want({{strs 1 .N}})
 	var got Res = as.UnTupled{{.N}}(f)({{args 1 .N}})
-	c.res(string(got), want)
+	c.Result(string(got), want)
 }
 {{end}}
 
 {{define "as_tupled2"}}{{template "site" .}}{{template "recf" .}}
-	var got Res = as.Tupled2(fp.Func2[A1, A2, Res](f))(mkTup2(a1, a2))
-	c.res(string(got), want)
+	var got Res = as.Tupled2(fp.Func2[A1, A2, Res](f))(MkTup2(a1, a2))
+	c.Result(string(got), want)
 }
 {{end}}
 
 {{define "as_func"}}{{template "site" .}}
 {{- if eq .N 0}}
-	f := func() Res { return c.call() }
-	want := c.want()
+	f := func() Res { return c.Call() }
+	want := c.Want()
 	var got Res = as.Func0(f)(fp.Unit{})
 {{- else}}{{template "recf" .}}
 	var got Res = as.Func{{.N}}(f)({{args 1 .N}})
 {{- end}}
-	c.res(string(got), want)
+	c.Result(string(got), want)
 }
 {{end}}
 
 {{define "as_supplier"}}{{template "site" .}}{{template "recf" .}}
 	var got Res = as.Supplier{{.N}}(f, {{args 1 .N}})()
-	c.res(string(got), want)
+	c.Result(string(got), want)
 }
 {{end}}
 
 {{define "curried_func"}}{{template "site" .}}{{template "recf" .}}
 	var got Res = curried.Func{{.N}}(f){{ccall 1 .N}}
-	c.res(string(got), want)
+	c.Result(string(got), want)
 }
 {{end}}
 
 {{define "curried_revert"}}{{template "site" .}}{{template "recf" .}}
-	var got Res = curried.Revert{{.N}}(cur{{.N}}(f))({{args 1 .N}})
-	c.res(string(got), want)
+	var got Res = curried.Revert{{.N}}(Cur{{.N}}(f))({{args 1 .N}})
+	c.Result(string(got), want)
 }
 {{end}}
 
 {{define "curried_flip"}}{{template "site" .}}{{template "recf" .}}
-	var got Res = {{.Call}}(cur{{.N}}(f)){{ccall 2 .N}}(a1)
-	c.res(string(got), want)
+	var got Res = {{.Call}}(Cur{{.N}}(f)){{ccall 2 .N}}(a1)
+	c.Result(string(got), want)
 }
 {{end}}
 
 {{define "curried_flipapply"}}{{template "site" .}}{{template "recf" .}}
-	var got Res = {{.Call}}(cur{{.N}}(f), {{args 2 .N}})(a1)
-	c.res(string(got), want)
+	var got Res = {{.Call}}(Cur{{.N}}(f), {{args 2 .N}})(a1)
+	c.Result(string(got), want)
 }
 {{end}}
 
 {{define "curried_slipl"}}{{template "site" .}}{{template "recf" .}}
-	var got Res = curried.SlipL{{.N}}(cur{{.N}}(f))(a{{.N}}){{ccall 1 (dec .N)}}
-	c.res(string(got), want)
+	var got Res = curried.SlipL{{.N}}(Cur{{.N}}(f))(a{{.N}}){{ccall 1 (dec .N)}}
+	c.Result(string(got), want)
 }
 {{end}}
 
 {{define "curried_compose"}}{{template "site" .}}{{template "recf" .}}
 	h := func(r Res) Res2 { return Res2("h(" + string(r) + ")") }
-	var got Res2 = curried.Compose{{.N}}(cur{{.N}}(f), fp.Func1[Res, Res2](h)){{ccall 1 .N}}
-	c.res(string(got), "h(" + want + ")")
+	var got Res2 = curried.Compose{{.N}}(Cur{{.N}}(f), fp.Func1[Res, Res2](h)){{ccall 1 .N}}
+	c.Result(string(got), "h(" + want + ")")
 }
 {{end}}
 
 {{define "hlist_case"}}{{template "site" .}}{{template "recf" .}}
-	var got Res = hlist.Case{{.N}}(mkHl{{.N}}({{args 1 .N}}), f)
-	c.res(string(got), want)
+	var got Res = hlist.Case{{.N}}(MkHl{{.N}}({{args 1 .N}}), f)
+	c.Result(string(got), want)
 }
 {{end}}
 
 {{define "hlist_lift"}}{{template "site" .}}{{template "recf" .}}
-	var got Res = hlist.Lift{{.N}}(f)(mkHl{{.N}}({{args 1 .N}}))
-	c.res(string(got), want)
+	var got Res = hlist.Lift{{.N}}(f)(MkHl{{.N}}({{args 1 .N}}))
+	c.Result(string(got), want)
 }
 {{end}}
 
 {{define "hlist_rift"}}{{template "site" .}}{{template "recf" .}}
-	var got Res = hlist.Rift{{.N}}(f)(mkHl{{.N}}({{argsr .N 1}}))
-	c.res(string(got), want)
+	var got Res = hlist.Rift{{.N}}(f)(MkHl{{.N}}({{argsr .N 1}}))
+	c.Result(string(got), want)
 }
 {{end}}
 
 {{define "hlist_reverse"}}{{template "site" .}}
-	got := hlist.Reverse{{.N}}(mkHl{{.N}}({{args 1 .N}}))
-	c.vec("elements", hl{{.N}}[{{TAr .N 1}}](got), {{strsr .N 1}})
+	got := hlist.Reverse{{.N}}(MkHl{{.N}}({{args 1 .N}}))
+	c.Vec("elements", Hl{{.N}}[{{TAr .N 1}}](got), {{strsr .N 1}})
 }
 {{end}}
 
 {{define "from_hlist"}}{{template "site" .}}
-	got := {{.Call}}(mkHl{{.N}}({{args 1 .N}}))
-	c.vec("fields", {{.Obs}}{{.N}}{{inst .N}}(got), {{strs 1 .N}})
+	got := {{.Call}}(MkHl{{.N}}({{args 1 .N}}))
+	c.Vec("fields", {{.Obs}}{{.N}}{{inst .N}}(got), {{strs 1 .N}})
 }
 {{end}}
 
 {{define "product_flatten"}}{{template "site" .}}
-	got := product.Flatten{{.N}}(mkNest{{.N}}({{args 1 .N}}))
-	c.vec("fields", tup{{.N}}{{inst .N}}(got), {{strs 1 .N}})
+	got := product.Flatten{{.N}}(MkNest{{.N}}({{args 1 .N}}))
+	c.Vec("fields", Tup{{.N}}{{inst .N}}(got), {{strs 1 .N}})
 }
 {{end}}
 
 {{define "product_lift"}}{{template "site" .}}{{template "recf" .}}
-	var got Res = product.Lift{{.N}}(f)(mkTup{{.N}}({{args 1 .N}}))
-	c.res(string(got), want)
+	var got Res = product.Lift{{.N}}(f)(MkTup{{.N}}({{args 1 .N}}))
+	c.Result(string(got), want)
 }
 {{end}}
 
 {{define "fp_compose"}}{{template "site" .}}
 {{- range $k := seq 1 .N}}
-	f{{$k}} := func(x A{{$k}}) A{{inc $k}} { return A{{inc $k}}(c.step({{$k}}, string(x))) }
+	f{{$k}} := func(x A{{$k}}) A{{inc $k}} { return A{{inc $k}}(c.Step({{$k}}, string(x))) }
 {{- end}}
 	var got A{{inc .N}} = {{.Call}}({{composeArgs .Call .N}})(a1)
-	c.eqs("result", string(got), {{nestedSteps .N}})
+	c.Eqs("result", string(got), {{nestedSteps .N}})
 }
 {{end}}
 
 {{define "fp_applyfirst"}}{{template "site" .}}{{template "recf" .}}
 	var got Res = fp.Func{{.N}}[{{TA 1 .N}}, Res](f).ApplyFirst{{.Sfx}}({{args 1 (dec .N)}})(a{{.N}})
-	c.res(string(got), want)
+	c.Result(string(got), want)
 }
 {{end}}
 
 {{define "fp_applylast"}}{{template "site" .}}{{template "recf" .}}
 	var got Res = fp.Func{{.N}}[{{TA 1 .N}}, Res](f).ApplyLast{{.Sfx}}({{args 2 .N}})(a1)
-	c.res(string(got), want)
+	c.Result(string(got), want)
 }
 {{end}}
 
 {{define "fp_id"}}{{template "site" .}}
 	got := {{.Call}}({{args 1 .N}})
-	eqv(c, "result", got, a{{.N}})
+	Eqv(c, "result", got, a{{.N}})
 }
 {{end}}
 
 {{define "fn1_merge"}}{{template "site" .}}
-	in := A{{inc .N}}(c.v[{{inc .N}}])
+	in := A{{inc .N}}(c.V[{{inc .N}}])
 {{- range $k := seq 1 .N}}
-	f{{$k}} := func(x A{{inc $.N}}) A{{$k}} { return A{{$k}}(c.step({{$k}}, string(x))) }
+	f{{$k}} := func(x A{{inc $.N}}) A{{$k}} { return A{{$k}}(c.Step({{$k}}, string(x))) }
 {{- end}}
 {{- if eq .Call "fn1.Merge"}}
 	g1, g2 := fn1.Merge({{pargs "f" 1 .N}})(in)
-	eqv(c, "results", g1, A1(c.step(1, string(in))))
-	eqv(c, "results", g2, A2(c.step(2, string(in))))
+	Eqv(c, "results", g1, A1(c.Step(1, string(in))))
+	Eqv(c, "results", g2, A2(c.Step(2, string(in))))
 {{- else}}
 	got := {{.Call}}({{pargs "f" 1 .N}})(in)
-	c.vec("fields", tup{{.N}}[{{TA 1 .N}}](got){{range $k := seq 1 .N}}, c.step({{$k}}, string(in)){{end}})
+	c.Vec("fields", Tup{{.N}}[{{TA 1 .N}}](got){{range $k := seq 1 .N}}, c.Step({{$k}}, string(in)){{end}})
 {{- end}}
 }
 {{end}}
 
 {{define "unit_func"}}{{template "site" .}}
 {{- if eq .N 0}}
-	f := func() { c.call() }
-	c.want()
+	f := func() { c.Call() }
+	c.Want()
 	var _ fp.Unit = unit.Func0(f)(fp.Unit{})
 {{- else}}
-	f := func({{decl 1 .N}}) { c.call({{xstrs 1 .N}}) }
-	c.want({{strs 1 .N}})
+	f := func({{decl 1 .N}}) { c.Call({{xstrs 1 .N}}) }
+	c.Want({{strs 1 .N}})
 	var _ fp.Unit = unit.Func{{.N}}(f)({{args 1 .N}})
 {{- end}}
-	c.called()
+	c.Called()
 }
 {{end}}
 
 {{define "m_lifta"}}{{template "site" .}}{{template "recf" .}}
 	var got {{.M.Ty}}[Res] = {{.Call}}(f)({{pures .M 1 .N}})
-	c.res({{.M.Show}}(got), "{{.M.Wrap}}" + want + ")")
+	c.Result({{.M.Show}}(got), "{{.M.Wrap}}" + want + ")")
 }
 {{end}}
 
 {{define "m_liftm"}}{{template "site" .}}{{template "recfm" .}}
 	var got {{.M.Ty}}[Res] = {{.Call}}(fm)({{pures .M 1 .N}})
-	c.res({{.M.Show}}(got), "{{.M.Wrap}}" + want + ")")
+	c.Result({{.M.Show}}(got), "{{.M.Wrap}}" + want + ")")
 }
 {{end}}
 
 {{define "m_map"}}{{template "site" .}}{{template "recf" .}}
 	var got {{.M.Ty}}[Res] = {{.Call}}({{pures .M 1 .N}}, f)
-	c.res({{.M.Show}}(got), "{{.M.Wrap}}" + want + ")")
+	c.Result({{.M.Show}}(got), "{{.M.Wrap}}" + want + ")")
 }
 {{end}}
 
 {{define "m_flatmap"}}{{template "site" .}}{{template "recfm" .}}
 	var got {{.M.Ty}}[Res] = {{.Call}}({{pures .M 1 .N}}, fm)
-	c.res({{.M.Show}}(got), "{{.M.Wrap}}" + want + ")")
+	c.Result({{.M.Show}}(got), "{{.M.Wrap}}" + want + ")")
 }
 {{end}}
 
 {{define "m_flap"}}{{template "site" .}}{{template "recf" .}}
-	var got {{.M.Ty}}[Res] = {{.Call}}({{.M.Pure}}(cur{{.N}}(f))){{ccall 1 .N}}
-	c.res({{.M.Show}}(got), "{{.M.Wrap}}" + want + ")")
+	var got {{.M.Ty}}[Res] = {{.Call}}({{.M.Pure}}(Cur{{.N}}(f))){{ccall 1 .N}}
+	c.Result({{.M.Show}}(got), "{{.M.Wrap}}" + want + ")")
 }
 {{end}}
 
 {{define "m_method"}}{{template "site" .}}{{template "recf" .}}
 	var got {{.M.Ty}}[Res] = {{.Call}}({{.M.Pure}}(a1), f)({{args 2 .N}})
-	c.res({{.M.Show}}(got), "{{.M.Wrap}}" + want + ")")
+	c.Result({{.M.Show}}(got), "{{.M.Wrap}}" + want + ")")
 }
 {{end}}
 
 {{define "m_flatmethod"}}{{template "site" .}}{{template "recfm" .}}
 	var got {{.M.Ty}}[Res] = {{.Call}}({{.M.Pure}}(a1), fm)({{args 2 .N}})
-	c.res({{.M.Show}}(got), "{{.M.Wrap}}" + want + ")")
+	c.Result({{.M.Show}}(got), "{{.M.Wrap}}" + want + ")")
 }
 {{end}}
 
 {{define "m_func"}}{{template "site" .}}
 {{- if eq .N 0}}
-	ft := func() (Res, error) { return c.call(), nil }
-	want := c.want()
+	ft := func() (Res, error) { return c.Call(), nil }
+	want := c.Want()
 	var got {{.M.Ty}}[Res] = {{.Call}}(ft)(fp.Unit{})
 {{- else}}{{template "recft" .}}
 	var got {{.M.Ty}}[Res] = {{.Call}}(ft)({{args 1 .N}})
 {{- end}}
-	c.res({{.M.Show}}(got), "{{.M.Wrap}}" + want + ")")
+	c.Result({{.M.Show}}(got), "{{.M.Wrap}}" + want + ")")
 }
 {{end}}
 
 {{define "m_curried"}}{{template "site" .}}{{template "recft" .}}
 	var got {{.M.Ty}}[Res] = {{.Call}}(ft){{ccall 1 .N}}
-	c.res({{.M.Show}}(got), "{{.M.Wrap}}" + want + ")")
+	c.Result({{.M.Show}}(got), "{{.M.Wrap}}" + want + ")")
 }
 {{end}}
 
 {{define "m_builder"}}{{template "site" .}}{{template "recf" .}}
 	var got {{.M.Ty}}[Res] = {{.Call}}({{funcConv .N}}){{chain .}}
-	c.res({{.M.Show}}(got), "{{.M.Wrap}}" + want + ")")
+	c.Result({{.M.Show}}(got), "{{.M.Wrap}}" + want + ")")
 }
 {{end}}
 
 {{define "operands"}}
-	t1 := mkTup{{.N}}({{args 1 .N}})
-	t2 := mkTup{{.N}}({{bargs 1 .N}})
+	t1 := MkTup{{.N}}({{args 1 .N}})
+	t2 := MkTup{{.N}}({{bargs 1 .N}})
 	vs := []string{ {{strs 1 .N}} }
 	us := []string{ {{bstrs 1 .N}} }
 {{- end}}
 
 {{define "tc_eq"}}{{template "site" .}}{{template "operands" .}}
-	e := eq.Tuple{{.N}}{{inst .N}}({{insts "recEq" true .N}})
-	c.eqb("Eqv", e.Eqv(t1, t2), allEq(vs, us))
-	c.eqb("Eqv-flipped", e.Eqv(t2, t1), allEq(us, vs))
-	c.eqb("Eqv-same", e.Eqv(t1, mkTup{{.N}}({{args 1 .N}})), true)
-	c.routed()
+	e := eq.Tuple{{.N}}{{inst .N}}({{insts "RecEq" true .N}})
+	c.Eqb("Eqv", e.Eqv(t1, t2), AllEq(vs, us))
+	c.Eqb("Eqv-flipped", e.Eqv(t2, t1), AllEq(us, vs))
+	c.Eqb("Eqv-same", e.Eqv(t1, MkTup{{.N}}({{args 1 .N}})), true)
+	c.Routed()
 }
 {{end}}
 
 {{define "tc_ord"}}{{template "site" .}}{{template "operands" .}}
-	o := ord.Tuple{{.N}}{{inst .N}}({{insts "recOrd" false .N}})
-	c.ordObs(o.Less(t1, t2), o.Less(t2, t1), o.Eqv(t1, t2), o.Compare(t1, t2), o.LessEq(t1, t2), vs, us)
-	c.routed()
+	o := ord.Tuple{{.N}}{{inst .N}}({{insts "RecOrd" false .N}})
+	c.OrdObs(func() bool { return o.Less(t1, t2) }, func() bool { return o.Less(t2, t1) }, func() bool { return o.Eqv(t1, t2) },
+		func() int { return o.Compare(t1, t2) }, func() bool { return o.LessEq(t1, t2) }, vs, us)
+	c.Routed()
 }
 {{end}}
 
 {{define "tc_hash"}}{{template "site" .}}{{template "operands" .}}
-	h := hash.Tuple{{.N}}{{inst .N}}({{insts "recHash" true .N}})
-	c.eqb("Eqv", h.Eqv(t1, t2), allEq(vs, us))
-	c.routed()
-	c.resetComps()
+	h := hash.Tuple{{.N}}{{inst .N}}({{insts "RecHash" true .N}})
+	c.Eqb("Eqv", h.Eqv(t1, t2), AllEq(vs, us))
+	c.Routed()
+	c.ResetComps()
 	h1 := h.Hash(t1)
-	c.routed()
-	c.sawAll("Hash", {{.N}})
-	c.resetComps()
-	c.eqb("Hash-deterministic", h1 == h.Hash(mkTup{{.N}}({{args 1 .N}})), true)
-	if allEq(vs, us) {
-		c.eqb("Hash-agrees-with-Eqv", h1 == h.Hash(t2), true)
+	c.Routed()
+	c.SawAll("Hash", {{.N}})
+	c.ResetComps()
+	c.Eqb("Hash-deterministic", h1 == h.Hash(MkTup{{.N}}({{args 1 .N}})), true)
+	if AllEq(vs, us) {
+		c.Eqb("Hash-agrees-with-Eqv", h1 == h.Hash(t2), true)
 	}
-	c.routed()
+	c.Routed()
 }
 {{end}}
 
 {{define "tc_monoid"}}{{template "site" .}}{{template "operands" .}}
 	_, _ = vs, us
-	m := monoid.Tuple{{.N}}{{inst .N}}({{insts "recMon" true .N}})
-	c.vec("Empty", tup{{.N}}{{inst .N}}(m.Empty()), {{posCalls "emp" .N}})
-	c.vec("Combine", tup{{.N}}{{inst .N}}(m.Combine(t1, t2)), {{posCalls "cmb" .N}})
+	m := monoid.Tuple{{.N}}{{inst .N}}({{insts "RecMon" true .N}})
+	c.Vec("Empty", Tup{{.N}}{{inst .N}}(m.Empty()), {{posCalls "Emp" .N}})
+	c.Vec("Combine", Tup{{.N}}{{inst .N}}(m.Combine(t1, t2)), {{posCalls "Cmb" .N}})
 }
 {{end}}
 
 {{define "tc_clone"}}{{template "site" .}}
-	t1 := mkTup{{.N}}({{args 1 .N}})
-	cl := clone.Tuple{{.N}}{{inst .N}}({{insts "recClone" true .N}})
-	c.vec("Clone", tup{{.N}}{{inst .N}}(cl.Clone(t1)), {{posCalls "cln" .N}})
-	c.routed()
+	t1 := MkTup{{.N}}({{args 1 .N}})
+	cl := clone.Tuple{{.N}}{{inst .N}}({{insts "RecClone" true .N}})
+	c.Vec("Clone", Tup{{.N}}{{inst .N}}(cl.Clone(t1)), {{posCalls "Cln" .N}})
+	c.Routed()
 }
 {{end}}
 `
@@ -668,23 +672,23 @@ func (T{{$n}}) Name() string { return "T{{$n}}" }
 {{end}}
 
 {{range $n := seq 1 21}}
-func tup{{$n}}{{tps $n}}(t fp.Tuple{{$n}}{{inst $n}}) []string {
+func Tup{{$n}}{{tps $n}}(t fp.Tuple{{$n}}{{inst $n}}) []string {
 	return []string{ {{pstrs "t.I" 1 $n}} }
 }
 
-func lab{{$n}}{{tps $n}}(t fp.Labelled{{$n}}{{inst $n}}) []string {
+func Lab{{$n}}{{tps $n}}(t fp.Labelled{{$n}}{{inst $n}}) []string {
 	return []string{ {{pstrs "t.I" 1 $n}} }
 }
 
-func mkTup{{$n}}{{tps $n}}({{adecl 1 $n}}) fp.Tuple{{$n}}{{inst $n}} {
+func MkTup{{$n}}{{tps $n}}({{adecl 1 $n}}) fp.Tuple{{$n}}{{inst $n}} {
 	return fp.Tuple{{$n}}{{inst $n}}{ {{range $k := seq 1 $n}}I{{$k}}: a{{$k}}, {{end}} }
 }
 
-func mkLab{{$n}}{{tps $n}}({{adecl 1 $n}}) fp.Labelled{{$n}}{{inst $n}} {
+func MkLab{{$n}}{{tps $n}}({{adecl 1 $n}}) fp.Labelled{{$n}}{{inst $n}} {
 	return fp.Labelled{{$n}}{{inst $n}}{ {{range $k := seq 1 $n}}I{{$k}}: a{{$k}}, {{end}} }
 }
 
-func hl{{$n}}{{tps $n}}(h {{consF 1 $n}}) []string {
+func Hl{{$n}}{{tps $n}}(h {{consF 1 $n}}) []string {
 	h1 := h
 {{- range $k := seq 2 $n}}
 	h{{$k}} := hlist.Tail(h{{dec $k}})
@@ -693,46 +697,24 @@ func hl{{$n}}{{tps $n}}(h {{consF 1 $n}}) []string {
 	return []string{ {{range $k := seq 1 $n}}string(hlist.Head(h{{$k}})), {{end}} }
 }
 
-func mkHl{{$n}}{{tps $n}}({{adecl 1 $n}}) {{consF 1 $n}} {
+func MkHl{{$n}}{{tps $n}}({{adecl 1 $n}}) {{consF 1 $n}} {
 	return {{range $k := seq 1 $n}}hlist.Concat(a{{$k}}, {{end}}hlist.Empty(){{range $k := seq 1 $n}}){{end}}
 }
 {{if ge $n 2}}
-func mkNest{{$n}}{{tps $n}}({{adecl 1 $n}}) {{nest 1 $n}} {
-	return {{range $k := seq 1 (dec $n)}}t2(a{{$k}}, {{end}}a{{$n}}{{range $k := seq 1 (dec $n)}}){{end}}
+func MkNest{{$n}}{{tps $n}}({{adecl 1 $n}}) {{nest 1 $n}} {
+	return {{range $k := seq 1 (dec $n)}}Pair(a{{$k}}, {{end}}a{{$n}}{{range $k := seq 1 (dec $n)}}){{end}}
 }
 {{end}}
-func rec{{$n}}{{tps $n}}(c *cx) func({{TA 1 $n}}) Res {
-	return func({{decl 1 $n}}) Res { return c.call({{xstrs 1 $n}}) }
+func Rec{{$n}}{{tps $n}}(c *Cx) func({{TA 1 $n}}) Res {
+	return func({{decl 1 $n}}) Res { return c.Call({{xstrs 1 $n}}) }
 }
 {{end}}
 
 {{range $n := seq 1 10}}
-func cur{{$n}}[{{TA 1 $n}} val, R any](f func({{TA 1 $n}}) R) {{cur 1 $n "R"}} {
+func Cur{{$n}}[{{TA 1 $n}} Val, R any](f func({{TA 1 $n}}) R) {{cur 1 $n "R"}} {
 	return {{range $k := seq 1 $n}}func(x{{$k}} A{{$k}}) {{cur (inc $k) $n "R"}} { return {{end}}f({{pargs "x" 1 $n}}){{range $k := seq 1 $n}} }{{end}}
 }
 {{end}}
-
-func t2[A, B any](a A, b B) fp.Tuple2[A, B] { return fp.Tuple2[A, B]{I1: a, I2: b} }
-
-// eqv compares an observed component with the expected one; both must have the same type
-// (compile time) and the same value (run time).
-func eqv[A val](c *cx, what string, got, want A) {
-	c.eqs(what, string(got), string(want))
-}
-
-func (c *cx) ordObs(less12, less21, eqv12 bool, cmp int, lessEq12 bool, vs, us []string) {
-	c.eqb("Less", less12, lexLess(vs, us))
-	c.eqb("Less-flipped", less21, lexLess(us, vs))
-	c.eqb("Eqv", eqv12, allEq(vs, us))
-	want := 0
-	if lexLess(vs, us) {
-		want = -1
-	} else if lexLess(us, vs) {
-		want = 1
-	}
-	c.eqs("Compare", fmt.Sprint(sign(cmp)), fmt.Sprint(want))
-	c.eqb("LessEq", lessEq12, !lexLess(us, vs))
-}
 `
 
 // ---- the index set ------------------------------------------------------------------------
@@ -749,15 +731,15 @@ func buildSites() []*site {
 	}
 	// fp.TupleN / fp.LabelledN accessors
 	for n := 1; n <= maxProduct; n++ {
-		add(&site{File: "fp", Family: "fp.Tuple(accessors)", Member: num("fp.Tuple", n), Tmpl: "tuple_acc", N: n, TP: n, NV: n, Mk: "mkTup"})
-		add(&site{File: "fp", Family: "fp.Labelled(accessors)", Member: num("fp.Labelled", n), Tmpl: "tuple_acc", N: n, TP: n, NV: n, Mk: "mkLab"})
+		add(&site{File: "fp", Family: "fp.Tuple(accessors)", Member: num("fp.Tuple", n), Tmpl: "tuple_acc", N: n, TP: n, NV: n, Mk: "MkTup"})
+		add(&site{File: "fp", Family: "fp.Labelled(accessors)", Member: num("fp.Labelled", n), Tmpl: "tuple_acc", N: n, TP: n, NV: n, Mk: "MkLab"})
 	}
 	// as
 	for n := 1; n <= maxProduct; n++ {
-		add(&site{File: "as", Family: "as.Tuple", Member: num("as.Tuple", n), Tmpl: "ctor", N: n, TP: n, NV: n, Call: num("as.Tuple", n), Obs: "tup"})
-		add(&site{File: "as", Family: "as.Labelled", Member: num("as.Labelled", n), Tmpl: "ctor", N: n, TP: n, NV: n, Call: num("as.Labelled", n), Obs: "lab"})
-		add(&site{File: "as", Family: "as.HList", Member: num("as.HList", n), Tmpl: "to_hlist", N: n, TP: n, NV: n, Call: num("as.HList", n), Mk: "mkTup"})
-		add(&site{File: "as", Family: "as.HListLabelled", Member: num("as.HList", n) + "Labelled", Tmpl: "to_hlist", N: n, TP: n, NV: n, Call: num("as.HList", n) + "Labelled", Mk: "mkLab"})
+		add(&site{File: "as", Family: "as.Tuple", Member: num("as.Tuple", n), Tmpl: "ctor", N: n, TP: n, NV: n, Call: num("as.Tuple", n), Obs: "Tup"})
+		add(&site{File: "as", Family: "as.Labelled", Member: num("as.Labelled", n), Tmpl: "ctor", N: n, TP: n, NV: n, Call: num("as.Labelled", n), Obs: "Lab"})
+		add(&site{File: "as", Family: "as.HList", Member: num("as.HList", n), Tmpl: "to_hlist", N: n, TP: n, NV: n, Call: num("as.HList", n), Mk: "MkTup"})
+		add(&site{File: "as", Family: "as.HListLabelled", Member: num("as.HList", n) + "Labelled", Tmpl: "to_hlist", N: n, TP: n, NV: n, Call: num("as.HList", n) + "Labelled", Mk: "MkLab"})
 	}
 	add(&site{File: "as", Family: "as.Func", Member: "as.Func0", Tmpl: "as_func", N: 0})
 	add(&site{File: "as", Family: "as.Tupled", Member: "as.Tupled2", Tmpl: "as_tupled2", N: 2, TP: 2, NV: 2})
@@ -790,7 +772,7 @@ func buildSites() []*site {
 	}
 	// hlist
 	for n := 1; n <= maxProduct; n++ {
-		add(&site{File: "hlist", Family: "hlist.Of", Member: num("hlist.Of", n), Tmpl: "ctor", N: n, TP: n, NV: n, Call: num("hlist.Of", n), Obs: "hl"})
+		add(&site{File: "hlist", Family: "hlist.Of", Member: num("hlist.Of", n), Tmpl: "ctor", N: n, TP: n, NV: n, Call: num("hlist.Of", n), Obs: "Hl"})
 		add(&site{File: "hlist", Family: "hlist.Case", Member: num("hlist.Case", n), Tmpl: "hlist_case", N: n, TP: n, NV: n})
 	}
 	for n := 1; n <= maxFunc; n++ {
@@ -802,10 +784,10 @@ func buildSites() []*site {
 	}
 	// product
 	for n := 1; n <= maxProduct; n++ {
-		add(&site{File: "product", Family: "product.TupleFromHList", Member: num("product.TupleFromHList", n), Tmpl: "from_hlist", N: n, TP: n, NV: n, Call: num("product.TupleFromHList", n), Obs: "tup"})
-		add(&site{File: "product", Family: "product.LabelledFromHList", Member: num("product.LabelledFromHList", n), Tmpl: "from_hlist", N: n, TP: n, NV: n, Call: num("product.LabelledFromHList", n), Obs: "lab"})
+		add(&site{File: "product", Family: "product.TupleFromHList", Member: num("product.TupleFromHList", n), Tmpl: "from_hlist", N: n, TP: n, NV: n, Call: num("product.TupleFromHList", n), Obs: "Tup"})
+		add(&site{File: "product", Family: "product.LabelledFromHList", Member: num("product.LabelledFromHList", n), Tmpl: "from_hlist", N: n, TP: n, NV: n, Call: num("product.LabelledFromHList", n), Obs: "Lab"})
 		if n >= 2 {
-			add(&site{File: "product", Family: "product.Tuple", Member: num("product.Tuple", n), Tmpl: "ctor", N: n, TP: n, NV: n, Call: num("product.Tuple", n), Obs: "tup"})
+			add(&site{File: "product", Family: "product.Tuple", Member: num("product.Tuple", n), Tmpl: "ctor", N: n, TP: n, NV: n, Call: num("product.Tuple", n), Obs: "Tup"})
 			add(&site{File: "product", Family: "product.Lift", Member: num("product.Lift", n), Tmpl: "product_lift", N: n, TP: n, NV: n})
 		}
 		if n >= 3 {
@@ -887,7 +869,15 @@ func buildSites() []*site {
 				methods = chM
 			}
 			for n := 1; n <= maxFunc; n++ {
-				variants := append(append([]string{}, methods...), "mixed")
+				// every builder method of MonadChain<K>/ApplicativeFunctor<K>, K = 9..1, lies on the
+				// chains that start at arity 9, so the per-method chains are only generated there;
+				// each lower arity gets one chain (methods rotating) for its constructor Chain<N>/Applicative<N>.
+				// (Each (K, depth of the HList type) pair is a separate instantiation of 12 methods, so
+				// the full cross product costs minutes of compile time and adds no generated text.)
+				variants := []string{"mixed"}
+				if n == maxFunc {
+					variants = append(append([]string{}, methods...), "mixed")
+				}
 				for vi, v := range variants {
 					var steps []step
 					for k := 1; k <= n; k++ {
@@ -898,7 +888,23 @@ func buildSites() []*site {
 						steps = append(steps, step{k, meth})
 					}
 					_ = vi
-					add(&site{File: m.Pkg + "_builders", Family: m.Pkg + "." + kind, Member: num(m.Pkg+"."+kind, n), Sub: v, Tmpl: "m_builder",
+					// one package per (monad, kind, arity bucket): the Chain builders instantiate a
+					// fresh family of MonadChain/Option/Try/Future types per (arity, step), which is
+					// what the compile time of the harness is made of; separate packages compile in parallel
+					file := m.Pkg + "_applicative"
+					if kind == "Chain" {
+						switch {
+						case n == 9:
+							file = m.Pkg + "_chain9"
+						case n == 8:
+							file = m.Pkg + "_chain8"
+						case n >= 6:
+							file = m.Pkg + "_chain67"
+						default:
+							file = m.Pkg + "_chain15"
+						}
+					}
+					add(&site{File: file, Family: m.Pkg + "." + kind, Member: num(m.Pkg+"."+kind, n), Sub: v, Tmpl: "m_builder",
 						N: n, TP: n, NV: n, M: m, Kind: kind, Call: num(m.Pkg+"."+kind, n), Steps: steps})
 				}
 			}
@@ -906,12 +912,12 @@ func buildSites() []*site {
 	}
 	// type-class instances of tuples
 	for n := 1; n <= maxProduct; n++ {
-		add(&site{File: "typeclass", Family: "eq.Tuple", Member: num("eq.Tuple", n), Tmpl: "tc_eq", N: n, TP: n, NV: n, NU: n})
-		add(&site{File: "typeclass", Family: "ord.Tuple", Member: num("ord.Tuple", n), Tmpl: "tc_ord", N: n, TP: n, NV: n, NU: n})
-		add(&site{File: "typeclass", Family: "hash.Tuple", Member: num("hash.Tuple", n), Tmpl: "tc_hash", N: n, TP: n, NV: n, NU: n})
+		add(&site{File: "tc_eq", Family: "eq.Tuple", Member: num("eq.Tuple", n), Tmpl: "tc_eq", N: n, TP: n, NV: n, NU: n})
+		add(&site{File: "tc_ord", Family: "ord.Tuple", Member: num("ord.Tuple", n), Tmpl: "tc_ord", N: n, TP: n, NV: n, NU: n})
+		add(&site{File: "tc_hash", Family: "hash.Tuple", Member: num("hash.Tuple", n), Tmpl: "tc_hash", N: n, TP: n, NV: n, NU: n})
 		if n >= 2 {
-			add(&site{File: "typeclass", Family: "monoid.Tuple", Member: num("monoid.Tuple", n), Tmpl: "tc_monoid", N: n, TP: n, NV: n, NU: n})
-			add(&site{File: "typeclass", Family: "clone.Tuple", Member: num("clone.Tuple", n), Tmpl: "tc_clone", N: n, TP: n, NV: n})
+			add(&site{File: "tc_monoid_clone", Family: "monoid.Tuple", Member: num("monoid.Tuple", n), Tmpl: "tc_monoid", N: n, TP: n, NV: n, NU: n})
+			add(&site{File: "tc_monoid_clone", Family: "clone.Tuple", Member: num("clone.Tuple", n), Tmpl: "tc_clone", N: n, TP: n, NV: n})
 		}
 	}
 	return out
@@ -936,9 +942,12 @@ var importsOf = map[string][]string{
 	"clone":   {"clone."},
 }
 
-func header(body string) string {
+func header(pkg string, dotRT bool, body string) string {
 	var b strings.Builder
-	b.WriteString("// Code generated by verif/c14/gen; DO NOT EDIT.\n\npackage main\n\nimport (\n")
+	fmt.Fprintf(&b, "// Code generated by verif/c14/gen; DO NOT EDIT.\n\npackage %s\n\nimport (\n", pkg)
+	if dotRT {
+		b.WriteString("\t. \"verif/c14/rt\"\n\n")
+	}
 	var names []string
 	for n := range importsOf {
 		names = append(names, n)
@@ -955,7 +964,7 @@ func header(body string) string {
 					break
 				}
 				j += idx
-				if j == 0 || !isIdent(body[j-1]) {
+				if j == 0 || (!isIdent(body[j-1]) && body[j-1] != '"') {
 					used = true
 					break
 				}
@@ -982,22 +991,22 @@ func isIdent(c byte) bool {
 	return c == '_' || c == '.' || (c >= 'a' && c <= 'z') || (c >= 'A' && c <= 'Z') || (c >= '0' && c <= '9')
 }
 
-func write(dir, name, body string) {
-	src := header(body) + body
+func write(path, src string) {
 	out, err := format.Source([]byte(src))
 	if err != nil {
-		os.WriteFile(filepath.Join(dir, name+".broken"), []byte(src), 0o644)
-		fmt.Fprintf(os.Stderr, "gofmt %s: %v (source kept as %s.broken)\n", name, err, name)
+		os.WriteFile(path+".broken", []byte(src), 0o644)
+		fmt.Fprintf(os.Stderr, "gofmt %s: %v (source kept as %s.broken)\n", path, err, path)
 		os.Exit(1)
 	}
-	if err := os.WriteFile(filepath.Join(dir, name), out, 0o644); err != nil {
+	os.MkdirAll(filepath.Dir(path), 0o755)
+	if err := os.WriteFile(path, out, 0o644); err != nil {
 		fmt.Fprintln(os.Stderr, err)
 		os.Exit(1)
 	}
 }
 
 func main() {
-	dir := flag.String("out", "c14", "output directory")
+	dir := flag.String("out", "c14", "output directory (the c14 package directory)")
 	list := flag.Bool("list", false, "print the (family, member, positions) index set and exit")
 	flag.Parse()
 	sites := buildSites()
@@ -1013,15 +1022,14 @@ func main() {
 	}
 	tm := template.Must(template.New("bodies").Funcs(funcs).Parse(bodies))
 	sup := template.Must(template.New("support").Funcs(funcs).Parse(supportTmpl))
-	old, _ := filepath.Glob(filepath.Join(*dir, "zz_*.go"))
-	for _, f := range old {
-		os.Remove(f)
-	}
+	os.RemoveAll(filepath.Join(*dir, "sites"))
+	os.Remove(filepath.Join(*dir, "rt", "zz_support.go"))
+	os.Remove(filepath.Join(*dir, "zz_imports.go"))
 	var sb bytes.Buffer
 	if err := sup.Execute(&sb, nil); err != nil {
 		panic(err)
 	}
-	write(*dir, "zz_support.go", sb.String())
+	write(filepath.Join(*dir, "rt", "zz_support.go"), header("rt", false, sb.String())+sb.String())
 	files := map[string]*bytes.Buffer{}
 	regs := map[string]*bytes.Buffer{}
 	var order []string
@@ -1036,11 +1044,17 @@ func main() {
 		if err := tm.ExecuteTemplate(b, s.Tmpl, s); err != nil {
 			panic(fmt.Sprintf("%s: %v", s.Member, err))
 		}
-		fmt.Fprintf(regs[s.File], "\treg(%q, %q, %d, %s%s, %s%s)\n", s.Family, s.Member, s.Pos, s.Fn(), instT(s.TP), s.Fn(), instS(s.TP))
+		fmt.Fprintf(regs[s.File], "\tReg(%q, %q, %d, %s%s, %s%s)\n", s.Family, s.Member, s.Pos, s.Fn(), instT(s.TP), s.Fn(), instS(s.TP))
 	}
+	sort.Strings(order)
+	var imp strings.Builder
+	imp.WriteString("// Code generated by verif/c14/gen; DO NOT EDIT.\n\npackage main\n\n// the generated call-site packages register themselves in rt.Sites\nimport (\n")
 	for _, f := range order {
 		body := files[f].String() + "\nfunc init() {\n" + regs[f].String() + "}\n"
-		write(*dir, "zz_"+f+".go", body)
+		write(filepath.Join(*dir, "sites", f, "zz_"+f+".go"), header("sites_"+f, true, body)+body)
+		fmt.Fprintf(&imp, "\t_ \"verif/c14/sites/%s\"\n", f)
 	}
-	fmt.Printf("generated %d call sites in %d files\n", len(sites), len(order)+1)
+	imp.WriteString(")\n")
+	write(filepath.Join(*dir, "zz_imports.go"), imp.String())
+	fmt.Printf("generated %d call sites in %d packages\n", len(sites), len(order))
 }
